@@ -25,13 +25,23 @@ type TxSpec struct {
 	AuthEnd     int64
 	AuthInvalid bool
 	Actions     []ActSpec
+	// Actor: index of the actor's address when it is not the sponsor's (a sponsored tx)
+	Actor *int `json:",omitempty"`
+}
+
+// ActorIdx is the index of the address the actions run for.
+func (s TxSpec) ActorIdx() int {
+	if s.Actor != nil {
+		return *s.Actor
+	}
+	return s.Sponsor
 }
 
 func (s ActSpec) Action() *ProgAction {
 	return NewProgAction(s.Compute, s.Start, s.End, s.Nonce, s.Keys, s.Ops)
 }
 
-// Build constructs the real transaction for a spec (StubAuth, actor = sponsor).
+// Build constructs the real transaction for a spec (StubAuth; actor = sponsor unless Actor is set).
 func (s TxSpec) Build() *chain.Transaction {
 	actions := make([]chain.Action, len(s.Actions))
 	for i, a := range s.Actions {
@@ -41,7 +51,7 @@ func (s TxSpec) Build() *chain.Transaction {
 	if s.WrongChain {
 		cid = ids.ID{0xde, 0xad}
 	}
-	auth := &StubAuth{SponsorAddr: Addr(s.Sponsor), ActorAddr: Addr(s.Sponsor), Compute: s.AuthCompute, Start: s.AuthStart, End: s.AuthEnd, Valid: !s.AuthInvalid}
+	auth := &StubAuth{SponsorAddr: Addr(s.Sponsor), ActorAddr: Addr(s.ActorIdx()), Compute: s.AuthCompute, Start: s.AuthStart, End: s.AuthEnd, Valid: !s.AuthInvalid}
 	tx, err := chain.NewTransaction(chain.Base{Timestamp: s.Expiry, ChainID: cid, MaxFee: s.MaxFee}, actions, auth)
 	if err != nil {
 		panic(err)
